@@ -18,7 +18,7 @@ Proof. exact graceful_delivers_everything. Qed.
 Print Assumptions C05_graceful_delivers_everything.
 
 Theorem C05_submit_after_shutdown_raises :
-  forall p, user p = true -> shut p = true ->
+  forall p, user p = true -> sub p = None -> shut p = true ->
     pending (step p Submit) = pending p /\ refused (step p Submit) = S (refused p) /\ submitted (step p Submit) = submitted p.
 Proof. exact shut_down_pool_refuses. Qed.
 Print Assumptions C05_submit_after_shutdown_raises.
